@@ -27,6 +27,7 @@ This module carries its own harness subclass (bounded.stl is shared with C05/C08
 - `stl.startup` instead of `stl.startup_and_init_all` on the 16-bit machine; position-unique labels;
 - a seed that does not depend on the interpreter's string hashing; an operation budget per sampled contract.
 """
+
 from __future__ import annotations
 
 import collections
@@ -51,6 +52,7 @@ PROP = 'C04'
 
 OP_BUDGET = {'quick': 400_000, 'thorough': 2_000_000}  # per sampled (contract, width): executed ops, not wall clock
 TUPLE_LIMIT = {'quick': 400, 'thorough': 6000}
+COMP_LIMIT = {'quick': 400, 'thorough': 250}  # operand tuples per composition
 BATCH = {'quick': 10, 'thorough': 8}  # macro applications per assembled program
 
 
@@ -59,7 +61,7 @@ def _bits(v: Var) -> int:
 
 
 def _range(v: Var) -> int:
-    return 2 ** v.n if v.kind == 'bit' else 16 ** v.n
+    return 2**v.n if v.kind == 'bit' else 16**v.n
 
 
 class TrackMem(dict):
@@ -128,7 +130,13 @@ class HexHarness(stl.Harness):
         self.m = Machine(w, segs, dict(rd.memory))
         self.m.mem = TrackMem(self.m.mem)
         self.dbit = w.bit_length()
-        self.addr = {nm: self._label(nm) for nm in list(self.vars) + ['done'] + [f'again{k}' for k in range(len(self.cs))] + [r for ren in self.exit_names for r in ren.values()]}
+        self.addr = {
+            nm: self._label(nm)
+            for nm in list(self.vars)
+            + ['done']
+            + [f'again{k}' for k in range(len(self.cs))]
+            + [r for ren in self.exit_names for r in ren.values()]
+        }
         self.out_bits: List[bool] = []
         self.inp_bits: List[bool] = []
         self.m.last = collections.deque(maxlen=8)
@@ -235,7 +243,15 @@ class HexHarness(stl.Harness):
             b1 = m.mem.get(a, 0)
             if b0 != b1 and (b0 ^ b1) & ~allowed.get(a, 0):
                 changed.append(a)
-        return dict(values=got, exit=visited_exit, halted=ok_halt, result=res, ops=m.n - n0, frame_broken=sorted(changed)[:4], out_bits=len(self.out_bits))
+        return dict(
+            values=got,
+            exit=visited_exit,
+            halted=ok_halt,
+            result=res,
+            ops=m.n - n0,
+            frame_broken=sorted(changed)[:4],
+            out_bits=len(self.out_bits),
+        )
 
 
 def default_domain(c: MacroContract, rng: random.Random, limit: int) -> Tuple[List[Dict[str, int]], bool]:
@@ -261,7 +277,7 @@ def default_domain(c: MacroContract, rng: random.Random, limit: int) -> Tuple[Li
     for t in tuples:
         for nm, v in c.vars.items():
             if v.role == 'out':
-                t[nm] = rng.randrange(16 ** v.n if v.kind != 'bit' else 2 ** v.n)
+                t[nm] = rng.randrange(16**v.n if v.kind != 'bit' else 2**v.n)
     return tuples, exhaustive
 
 
@@ -291,7 +307,7 @@ def check_in(h: HexHarness, k: int, tier: str, seed: int, limit: int) -> Dict[st
             why = f'did not come back to `done` ({r["result"]}, {r["ops"]} ops)'
         else:
             for nm, v in c.vars.items():
-                mod = 16 ** v.n if v.kind != 'bit' else 2 ** v.n
+                mod = 16**v.n if v.kind != 'bit' else 2**v.n
                 if r['values'][nm] != want[nm] % mod:
                     why = f'{nm} = {r["values"][nm]:#x}, documented: {want[nm] % mod:#x}'
                     break
@@ -311,7 +327,15 @@ def check_in(h: HexHarness, k: int, tier: str, seed: int, limit: int) -> Dict[st
                 Violation(
                     f'bounded:{c.name}.contract',
                     f'{c.call} (w={w}) on {({nm: hex(x) for nm, x in vals.items()})}: {why}   [doc: {c.doc}]',
-                    dict(call=c.call, w=w, operands=vals, source=h.source, entry=f'again{k}', executions_of_this_entry_before=res['evals'] - 1, entries_run_before_on_this_image=others),
+                    dict(
+                        call=c.call,
+                        w=w,
+                        operands=vals,
+                        source=h.source,
+                        entry=f'again{k}',
+                        executions_of_this_entry_before=res['evals'] - 1,
+                        entries_run_before_on_this_image=others,
+                    ),
                     True,
                     key=key,
                 )
@@ -337,7 +361,15 @@ def check_batch(cs: Sequence[MacroContract], w: int, tier: str, seed: int, limit
                 return [check_batch([c], w, tier, seed, limit)[0] for c in cs]
             r = blank()
             c = cs[0]
-            r['viols'].append(Violation(f'bounded:{c.name}.harness_assembles', f'{c.call} (w={w}): the harness program does not assemble: {type(e).__name__}: {str(e)[:300]}', dict(call=c.call, w=w), True, key=f'{c.name}:assemble'))
+            r['viols'].append(
+                Violation(
+                    f'bounded:{c.name}.harness_assembles',
+                    f'{c.call} (w={w}): the harness program does not assemble: {type(e).__name__}: {str(e)[:300]}',
+                    dict(call=c.call, w=w),
+                    True,
+                    key=f'{c.name}:assemble',
+                )
+            )
             return [r]
         return [check_in(h, k, tier, seed, limit) for k in range(len(cs))]
 
@@ -353,7 +385,13 @@ def _one(idx: int) -> List[Dict[str, Any]]:
         import traceback
 
         c = cs[0]
-        v = Violation(f'bounded:{c.name}.harness', f'{c.call} (w={w}): harness error {type(e).__name__}: {e}', dict(calls=[x.call for x in cs], trace=traceback.format_exc()[-800:]), False, key=f'{c.name}:harness')
+        v = Violation(
+            f'bounded:{c.name}.harness',
+            f'{c.call} (w={w}): harness error {type(e).__name__}: {e}',
+            dict(calls=[x.call for x in cs], trace=traceback.format_exc()[-800:]),
+            False,
+            key=f'{c.name}:harness',
+        )
         return [dict(evals=0, viols=[v] if k == 0 else [], note=None, exhaustive=False, ops=0) for k in range(len(cs))]
 
 
@@ -383,7 +421,9 @@ def make_batches(contracts: Sequence[MacroContract], size: int) -> List[Tuple[Li
     return out
 
 
-def run_sections(rep: Report, sections: Sequence[Tuple[str, str, Sequence[MacroContract], int]], tier: str, seed: int, procs: int = 16) -> List[str]:
+def run_sections(
+    rep: Report, sections: Sequence[Tuple[str, str, Sequence[MacroContract], int]], tier: str, seed: int, procs: int = 16
+) -> List[str]:
     """sections: (title, domain text, contracts, tuple limit).  ONE pool for all of them (no idle tail between sections);
     returns the notes about widths that were skipped."""
     import multiprocessing as mp
@@ -507,13 +547,36 @@ def canaries(rep: Report, seed: int) -> None:
     """the harness must be able to say no: three deliberately WRONG contracts (value, exit, frame) have to be refuted"""
     H = hexc.H
     wrong = [
-        MacroContract('canary.value', 'hex.add 2, x, y', {'x': H(2), 'y': H(2, 'in')}, lambda v: {'x': v['x'] + v['y'] + (v['y'] == 0x80)}, doc='(wrong on purpose)'),
-        MacroContract('canary.exit', 'hex.if 2, x, l0, l1', {'x': H(2, 'in')}, lambda v: {}, exits=('l0', 'l1'), exit_=lambda v: 'l0' if v['x'] in (0, 0x10) else 'l1', doc='(wrong on purpose)'),
-        MacroContract('canary.frame', 'hex.inc 2, y\n  hex.zero 2, x', {'x': H(2)}, lambda v: {'x': 0}, extra_decl='y: hex.vec 2', doc='(wrong on purpose)'),
+        MacroContract(
+            'canary.value',
+            'hex.add 2, x, y',
+            {'x': H(2), 'y': H(2, 'in')},
+            lambda v: {'x': v['x'] + v['y'] + (v['y'] == 0x80)},
+            doc='(wrong on purpose)',
+        ),
+        MacroContract(
+            'canary.exit',
+            'hex.if 2, x, l0, l1',
+            {'x': H(2, 'in')},
+            lambda v: {},
+            exits=('l0', 'l1'),
+            exit_=lambda v: 'l0' if v['x'] in (0, 0x10) else 'l1',
+            doc='(wrong on purpose)',
+        ),
+        MacroContract(
+            'canary.frame',
+            'hex.inc 2, y\n  hex.zero 2, x',
+            {'x': H(2)},
+            lambda v: {'x': 0},
+            extra_decl='y: hex.vec 2',
+            doc='(wrong on purpose)',
+        ),
     ]
     for c, r in zip(wrong, check_batch(wrong, 64, 'quick', seed, TUPLE_LIMIT['quick'])):
         if not r['viols'] or (c.name == 'canary.frame' and 'changed memory outside' not in r['viols'][0].what):
-            rep.undecide(f'obligation=bounded:{c.name} reason=the harness accepted a deliberately wrong contract ({c.call!r}): its verdicts cannot be trusted')
+            rep.undecide(
+                f'obligation=bounded:{c.name} reason=the harness accepted a deliberately wrong contract ({c.call!r}): its verdicts cannot be trusted'
+            )
     rep.extra['canaries_refuted'] = [c.name for c in wrong]
 
 
@@ -538,11 +601,16 @@ def body(tier: str, seed: int) -> int:
             ),
             (
                 'compositions of 2-4 macro applications on shared variables x, y, z, u, t',
-                f'{info}; up to {TUPLE_LIMIT["quick"]} operand tuples each (corners + random)',
+                f'{info}; up to {COMP_LIMIT[t]} operand tuples each (corners + random)',
                 comps,
-                TUPLE_LIMIT['quick'],
+                COMP_LIMIT[t],
             ),
-            ('lookup tables of hex.init driven over their complete operand domain', '; '.join(f'{a}: {b} ({n} tuples)' for a, b, n in doms), tabs, limit),
+            (
+                'lookup tables of hex.init driven over their complete operand domain',
+                '; '.join(f'{a}: {b} ({n} tuples)' for a, b, n in doms),
+                tabs,
+                limit,
+            ),
         ],
         t,
         seed,
@@ -553,11 +621,21 @@ def body(tier: str, seed: int) -> int:
     rep.extra['table_domains'] = [dict(table=a, domain=b, tuples=n) for a, b, n in doms]
     rep.extra['skipped_widths'] = skipped
     rep.extra['not_under_contract'] = hexc.NOT_UNDER_CONTRACT
-    rep.assume('[B] bounded: operand tuples exhaustive only where the product of the operand ranges is small; vector lengths and widths are the listed ones; sequences of macro applications are the listed covers, not all sequences')
-    rep.assume('the scratch vectors a macro declares in its own body (hex.div: _a _b _r i; hex.idiv: negative_a negative_b one_negative; hex.mul: dst src a_1bits b_1bits; hex.scmp: ba bb) are not program variables: their data bits may change, nothing else of those cells')
-    rep.assume("the data bits of the cell at address 0 (the jump word of the startup op, never executed again) are the library's null `next` operand: hex.shl_bit / hex.shr_bit (hence mul10, div, idiv) flip them; not a program variable")
-    rep.assume('w=16: only macros whose documentation requires no table initialisation are run there, after `stl.startup` (stl.startup_and_init_all cannot be assembled in a 16-bit memory: "Not enough space")')
-    rep.trust('spec/machine.py as the engine (C01 relates the real engines to it); the real assembler and reader produce the image (C02, C06, C15)')
+    rep.assume(
+        '[B] bounded: operand tuples exhaustive only where the product of the operand ranges is small; vector lengths and widths are the listed ones; sequences of macro applications are the listed covers, not all sequences'
+    )
+    rep.assume(
+        'the scratch vectors a macro declares in its own body (hex.div: _a _b _r i; hex.idiv: negative_a negative_b one_negative; hex.mul: dst src a_1bits b_1bits; hex.scmp: ba bb) are not program variables: their data bits may change, nothing else of those cells'
+    )
+    rep.assume(
+        "the data bits of the cell at address 0 (the jump word of the startup op, never executed again) are the library's null `next` operand: hex.shl_bit / hex.shr_bit (hence mul10, div, idiv) flip them; not a program variable"
+    )
+    rep.assume(
+        'w=16: only macros whose documentation requires no table initialisation are run there, after `stl.startup` (stl.startup_and_init_all cannot be assembled in a 16-bit memory: "Not enough space")'
+    )
+    rep.trust(
+        'spec/machine.py as the engine (C01 relates the real engines to it); the real assembler and reader produce the image (C02, C06, C15)'
+    )
     return rep.finish()
 
 
